@@ -102,7 +102,7 @@ def run_cli(script, args, stdin_mode='open', data=b'', timeout=180, env=None, ha
             pass
     return (out[0] if out else b''), (err[0] if err else b''), p.returncode, timed_out
 
-def run_cli_blocked(script, args, chunks, settle=1.0, timeout=180, hashseed='0', max_out=64 << 20):
+def run_cli_blocked(script, args, chunks, settle=1.0, timeout=180, hashseed='0', max_out=64 << 20, use_pty=False):
     """Back-pressure monitor: start the CLI with stdout on a pipe nobody reads, wait until the pipe is full and its fill level has stopped moving (the
     generator is then blocked inside a write, at a well-defined point of its stream), write `chunks` (each one write()) to the stdin pipe, wait until the
     child has consumed them and its stderr has been quiet for `settle` seconds, then drain stdout until the process ends.
@@ -115,7 +115,13 @@ def run_cli_blocked(script, args, chunks, settle=1.0, timeout=180, hashseed='0',
     # unbuffered stdout (python -u): with the default block buffering the helper thread's input() flushes sys.stdout first and so waits for the buffer lock
     # the blocked generator holds; the requests would only be read after the drain, and 'the moment the user asks to quit' would not be fixed by back-pressure
     e['PYTHONUNBUFFERED'] = '1'
-    p = subprocess.Popen(cmd, stdin=subprocess.PIPE, stdout=subprocess.PIPE, stderr=subprocess.PIPE, cwd=s, env=e)
+    master = slave = None
+    if use_pty:
+        # standard input is a terminal somebody types on (the chunks are typed on the master side)
+        master, slave = pty.openpty()
+        p = subprocess.Popen(cmd, stdin=slave, stdout=subprocess.PIPE, stderr=subprocess.PIPE, cwd=s, env=e)
+    else:
+        p = subprocess.Popen(cmd, stdin=subprocess.PIPE, stdout=subprocess.PIPE, stderr=subprocess.PIPE, cwd=s, env=e)
     def pending(fd):
         try:
             return struct.unpack('i', fcntl.ioctl(fd, termios.FIONREAD, b'\0\0\0\0'))[0]
@@ -146,13 +152,15 @@ def run_cli_blocked(script, args, chunks, settle=1.0, timeout=180, hashseed='0',
             # 2. the requests, each chunk in one write
             for c in chunks:
                 try:
-                    os.write(p.stdin.fileno(), c)
+                    os.write(master if use_pty else p.stdin.fileno(), c)
                 except (BrokenPipeError, OSError):
                     break
+                if use_pty:
+                    time.sleep(0.35)          # a typist: one request at a time (the helper thread sleeps 0.1 s per request)
             # 3. consumed + quiet
             t1 = time.time()
             while time.time() - t1 < 20:
-                if pending(p.stdin.fileno()) == 0:
+                if use_pty or pending(p.stdin.fileno()) == 0:
                     info['stdin_consumed'] = True
                     if time.time() - max(last_err[0], t1) > settle:
                         break
@@ -184,9 +192,16 @@ def run_cli_blocked(script, args, chunks, settle=1.0, timeout=180, hashseed='0',
         te.join(10)
     finally:
         try:
-            p.stdin.close()
+            if p.stdin:
+                p.stdin.close()
         except Exception:
             pass
         if p.poll() is None:
             p.kill(); p.wait()
+        for fd in (master, slave):
+            if fd is not None:
+                try:
+                    os.close(fd)
+                except OSError:
+                    pass
     return b''.join(out), b''.join(err), p.returncode, timed_out, info
